@@ -14,7 +14,13 @@ Observed on the real asn1c built from the working tree (exploration, not proof):
      silent, permitted-alphabet tables a function of the alphabet alone;
  (g) module sets with cross-module name clashes, every file order: per-type files identical, and their names equal
      to the clash-marking model's (coq/Fix/NameClash.v: proved invariant under permutation of the module list);
- (h) code generation from the shipped corpus through the same process-image / valgrind / table oracles."""
+ (h) code generation from the shipped corpus through the same process-image / valgrind / table oracles;
+ (i) values (bit/character strings, reals, references, value assignments, exception specs, contained subtypes) in every
+     position, incl. four directed value-boundary modules in every run: (a) and (b) on them; the byte level of the value
+     sub-language is proved (coq/Fix/LexValues.v);
+ (j) 2-3 module sets with contained-subtype / value-reference chains across the modules, every file order: exit status,
+     `-E -F -print-constraints` text per module and per-type files identical; printed combined constraints equal to the
+     resolution model's (coq/Fix/Pullup.v: proved order independent) and to python's own order-free evaluation."""
 import sys, os, itertools, hashlib
 from concurrent.futures import ThreadPoolExecutor
 sys.path.insert(0, os.path.join(os.path.dirname(os.path.abspath(__file__)), "..", "lib"))
@@ -855,7 +861,8 @@ def main(tier):
         except OSError:
             return False
     if quick:
-        gfiles = [p for p in allfiles if has_from(p)] + [p for p in files if not has_from(p)][:14]
+        # (the 700 KB rrc-7.1.0.asn1 takes 30-40 s per code generation, five in a row: thorough tier only)
+        gfiles = [p for p in allfiles if has_from(p)] + [p for p in files if not has_from(p) and os.path.getsize(p) < 200000][:14]
     else:
         gfiles = allfiles
     cgen_futs = [pool.submit(case_corpus_gen, ctx, i, p, OPTION_SETS[0] if i % 3 else OPTION_SETS[6]) for i, p in enumerate(gfiles)]
@@ -1329,17 +1336,18 @@ def main(tier):
 
     aslr = open("/proc/sys/kernel/randomize_va_space").read().strip() if os.path.exists("/proc/sys/kernel/randomize_va_space") else "?"
     tb = ["Coq 8.16.1 kernel", "axioms under Print Assumptions: " + (", ".join(sorted(axioms)) or "none (Closed under the global context)"),
-          "extraction: ExtrOcamlBasic only; OCaml 4.13.1; ocaml/drv_c12.ml (AST reader)",
+          "extraction: ExtrOcamlBasic only; OCaml 4.13.1; ocaml/drv_c12.ml, ocaml/drv_c12p.ml (AST readers)",
           "checks/c12.py + checks/c12_gen.py: generator, renderer, yacc_norm (the constraint-tree shape yacc builds), file comparison, finding classifiers",
           "asn1c built by vlib.build_asn1c() from the working tree; kernel.randomize_va_space=" + aslr,
           "valgrind " + ("3.19 memcheck (--error-exitcode, leak check off)" if VALGRIND else "NOT AVAILABLE: uninitialised-read oracle skipped") + "; setarch -R " + ("available" if SETARCH else "not available"),
-          "determinism / file-order / same-code / corpus fixpoint / alphabet tables are observations of the C process on the generated cases, not theorems; the naming theorems (NameClash) are tied to the C only through the file names of the generated clash sets"]
+          "determinism / file-order / same-code / corpus fixpoint / alphabet tables are observations of the C process on the generated cases, not theorems; the naming theorems (NameClash) are tied to the C only through the file names of the generated clash sets; the resolution theorems (Pullup) only through the `-- Combined constraints:` lines of -print-constraints for the generated cross-module sets"]
     return run.finish("proof", (nthm, ndis), trusted_base=tb,
                       checker_cmd="make -C /verif all && coqc -Q coq A1 coq/Props/Properties_C12.v",
                       extra_cov={"theorems": names,
+                                 "rule3": "also a case: one cross-module constraint set (2-3 files, 12 shapes of contained-subtype / value-reference chains, every file order)",
                                  "rule2": "also a case: one rich module (text generator, one of 12 option sets), one clash set (2-3 files with cross-module name clashes, every file order), one corpus file compiled to code",
                                  "rule": "a case = one generated module (random AST of the modelled algebra rendered with random layout, comments, UNION/INTERSECTION spellings) or one multi-file module set (all permutations of the file list) or one shipped corpus file",
-                                 "observed_not_proved": ["determinism (3 runs per model-algebra module; 5 process shapes incl. valgrind per rich module / clash set / corpus file; ASLR=" + aslr + ")", "valgrind memcheck silent", "permitted-alphabet tables = function of the alphabet", "file-order independence", "same generated code for t0 and asn1c -E t0", "corpus fixpoint"],
+                                 "observed_not_proved": ["determinism (3 runs per model-algebra module; 5 process shapes incl. valgrind per rich module / clash set / corpus file; ASLR=" + aslr + ")", "valgrind memcheck silent", "permitted-alphabet tables = function of the alphabet", "file-order independence (per-type files; exit status and printed constraints for cross-module constraint sets)", "same generated code for t0 and asn1c -E t0", "corpus fixpoint"],
                                  "traces_validated_against_impl": run.dist.get("faithfulness_cases", 0)},
                       assumptions=["the yacc grammar is not modelled; the reference parser is tied to asn1c only through -E outputs",
                                    "per-type files = generated files carrying the `From ASN.1 module` header; Makefile.am.libasncodec / pdu_collection.c listing order under file permutation is recorded, not compared",
